@@ -8,7 +8,7 @@ from ..explore_r import (Scenario, S, mkcfg, bl, sl, HOOK_KINDS, EventHook, Prob
                          ProbeMarket, ProbeIndexMarket)
 from ..scenarios_r import CL
 
-WIT = ["order_occurrences", "cancel_occurrences", "cancel_later_than_order", "cancel_of_filled_order", "fill_occurrences", "hook_invocations",
+WIT = ["order_occurrences", "cancel_occurrences", "cancel_later_than_order", "cancel_of_filled_order", "fill_occurrences", "hook_invocations", "before_session_hook_at_mode_change",
        "spec_time_none", "spec_time_empty", "spec_time_duplicate", "altered_order_accepted"]
 RULE = ("one probe event carrying every single hook specification (9 hook kinds x time lists None/[]/[t]/[t,t']/[t,t] x market "
         "filters) and every pair of specifications, run through the real runner in a two-session, three-market (incl. index "
